@@ -383,7 +383,7 @@ theorem denied_request_changes_nothing (t : Tx) (c : ConnId) (n : Bytes) (flags 
 theorem denied_message_reaches_no_one (t : Tx) (c a : ConnId) (m : Msg) (d : Bytes) (p : List Pending) (e : Err)
     (hd : m.dest = some d) (ha : t.bus.primary? d = some a)
     (hpol : checkPolicy t.bus (some c) (some a) (some a) m = (p, some e)) :
-    route t c m = (t.setPending p, some e) :=
+    (route t c m).2 = some e ∧ (route t c m).1.out = t.out ∧ (route t c m).1.bus = (t.setPending p).bus :=
   Dbus.Props.C05.refused_no_delivery t c a m d p e hd ha hpol
 
 end Dbus.Props.C06
